@@ -10,24 +10,33 @@ const ShrinkBudget = 2500
 
 // Shrink greedily minimises a violating case while it keeps violating the same
 // clause key. Candidate order is fixed, so shrinking is deterministic.
-func Shrink(c *Case, key string) (*Case, int) {
+func Shrink(c *Case, key string) (res *Case, n int) {
 	execs := 0
+	type budgetDone struct{}
 	fails := func(x *Case) bool {
+		if execs >= ShrinkBudget {
+			panic(budgetDone{}) // unwinds out of whatever candidate loop is running
+		}
 		execs++
 		v := Exec(x)
 		return v != nil && v.Key == key
 	}
 	cur := c.Clone()
+	defer func() {
+		if r := recover(); r != nil {
+			if _, ok := r.(budgetDone); !ok {
+				panic(r)
+			}
+			res, n = cur, execs
+		}
+	}()
 	for progress := true; progress && execs < ShrinkBudget; {
 		progress = false
-		for _, gen := range []func(*Case, func(*Case) bool) bool{shrinkInput, shrinkPlan, shrinkMisc, shrinkRec, shrinkTrie, shrinkRegions} {
+		for _, gen := range []func(*Case, func(*Case) bool) bool{shrinkPlan, shrinkInput, shrinkMisc, shrinkRec, shrinkTrie, shrinkRegions} {
 			if execs >= ShrinkBudget {
 				break
 			}
 			if gen(cur, func(cand *Case) bool {
-				if execs >= ShrinkBudget {
-					return false
-				}
 				if fails(cand) {
 					*cur = *cand
 					return true
@@ -63,32 +72,45 @@ func shrinkInput(c *Case, try func(*Case) bool) bool {
 		return false
 	}
 	any := false
-	// whole lines first
-	for again := true; again; {
-		again = false
-		lines := bytes.SplitAfter(c.Input, []byte("\n"))
-		pos := 0
-		for _, l := range lines {
-			if len(l) == 0 {
-				continue
+	ddmin := func(from, to int) {
+		for size := from; size >= to && size >= 1; size /= 2 {
+			for p := 0; p+size <= len(c.Input); {
+				if try(cutInput(c, p, p+size)) {
+					any = true
+					continue
+				}
+				p += size
 			}
-			if len(lines) > 1 && try(cutInput(c, pos, pos+len(l))) {
-				any, again = true, true
+		}
+	}
+	// coarse chunks first (cheap for large inputs), then whole lines, then fine chunks
+	ddmin(len(c.Input)/2, len(c.Input)/32+1)
+	// groups of k consecutive lines (records span several lines: 4 in FASTQ)
+	for _, k := range []int{8, 4, 3, 2, 1} {
+		for again := true; again; {
+			again = false
+			lines := bytes.SplitAfter(c.Input, []byte("\n"))
+			if n := len(lines); n > 0 && len(lines[n-1]) == 0 {
+				lines = lines[:n-1]
+			}
+			if len(lines) < k || (len(lines) == k && k > 1) {
 				break
 			}
-			pos += len(l)
-		}
-	}
-	// ddmin-style chunks
-	for size := len(c.Input) / 2; size >= 1; size /= 2 {
-		for p := 0; p+size <= len(c.Input); {
-			if try(cutInput(c, p, p+size)) {
-				any = true
-				continue
+			pos := 0
+			for i := 0; i+k <= len(lines); i++ {
+				sz := 0
+				for _, l := range lines[i : i+k] {
+					sz += len(l)
+				}
+				if sz < len(c.Input) && try(cutInput(c, pos, pos+sz)) {
+					any, again = true, true
+					break
+				}
+				pos += len(lines[i])
 			}
-			p += size
 		}
 	}
+	ddmin(len(c.Input)/2, 1)
 	// simplify bytes
 	if len(c.Input) <= 200 {
 		for i := 0; i < len(c.Input); i++ {
